@@ -148,6 +148,11 @@ func (ds *NativeSM) Loaded() {
 
 // Close closes the underlying user state machine and set the destroyed flag.
 func (ds *NativeSM) Close() error {
+	// Lookup and NALookup run under ds.mu.RLock and test the destroyed flag:
+	// take the write lock so that the user state machine is never closed while
+	// a local read is in progress and no local read starts once it is closed.
+	ds.mu.Lock()
+	defer ds.mu.Unlock()
 	if err := ds.sm.Close(); err != nil {
 		return err
 	}
